@@ -111,6 +111,7 @@ class Sim13:
         self.refused: list[dict] = []          # conditional PATCHes of the peering object answered 409
         self.fault_hits: list[dict] = []       # every request answered by an injected fault of the scenario (t, t_done, who, class, kind)
         self.slow_hits: list[dict] = []        # every peering PATCH that a `slow_requests` rule of the scenario held up on its way to the server
+        self.peer_patches: list[dict] = []     # every peering PATCH at the moment it is SENT: class, payload, and when its client cancelled it (if it did)
         self._patch_class: str | None = None   # the class of the peering PATCH that is being issued right now (see `installed`)
         self._on_fault: Any = None             # set by `installed`: marks the process_peering_event call a fault hits
         self.toggle_set: dict[int, Any] = {}       # id(toggle) -> (toggle, set)
@@ -459,7 +460,7 @@ class Sim13:
         return {"t_end": t_end, "incs": incs, "toggles": snap(self.toggles), "pcalls": snap([{k: v for k, v in p.items() if not k.startswith("_")} for p in self.pcalls]),
                 "ka": snap(self.ka), "touches": snap(self.touches), "calls": snap(self.calls), "cycles": snap(self.cycles), "marks": snap(self.marks),
                 "peering_history": phist, "kex_history": khist, "requests": reqs, "guard_failures": snap(self.guard_failures), "writes": snap(self.writes), "refused": snap(self.refused),
-                "fault_hits": snap(self.fault_hits), "slow_hits": snap(self.slow_hits)}
+                "fault_hits": snap(self.fault_hits), "slow_hits": snap(self.slow_hits), "peer_patches": snap(self.peer_patches)}
 
 
 # =================================================================================================
@@ -809,7 +810,17 @@ def installed(sim: Sim13) -> Iterator[None]:
                 slow_next["d"] = slow_for(name, cls)
             if d:
                 await asyncio.sleep(d)
-        return await o_request_as(cls, self, method, url, *a, **k)
+        # (the C13.kaflight tie: what is on the wire and whether its own client took it back - a cancellation of the awaiting
+        #  task that reaches the request itself; a request wrapped in a shield is not cancelled with its awaiter)
+        payload = k.get("json", a[0] if a else None)
+        entry = {"t": sim.now(), "inc": sim.inc(), "who": self.identity, "cls": cls, "refused_dead": bool(self.dead or self.closed),
+                 "status": copy.deepcopy(payload.get("status")) if isinstance(payload, dict) else None, "t_cancel": None}
+        sim.peer_patches.append(entry)
+        try:
+            return await o_request_as(cls, self, method, url, *a, **k)
+        except asyncio.CancelledError:
+            entry["t_cancel"] = sim.now()
+            raise
 
     fakeapi.FakeSession.request = request  # type: ignore[assignment]
 
